@@ -1388,6 +1388,19 @@ class SX:
             return res
         if isinstance(n, ast.UnaryOp):
             if isinstance(n.op, ast.Not):
+                if isinstance(n.operand, ast.Call) and isinstance(n.operand.func, ast.Name) and n.operand.func.id in ('any', 'all') \
+                        and n.operand.func.id not in st.env:
+                    # De Morgan on a quantified statement about an abstract sequence: not all(v) = any(not v), not any(v) = all(not v)
+                    got = self.eval_x(n.operand, st.copy(), frame)
+                    if got and all(not isinstance(r, Outcome) and isinstance(r[1], Qv) for r in got):
+                        res = []
+                        for s, q in got:
+                            cases = []
+                            for guards, val in q.mv.cases:
+                                t = self.truth(val)
+                                cases.append((guards, Bv(not t) if isinstance(t, bool) else Bsym(t.negate())))
+                            res.append((s, Qv('any' if q.quant == 'all' else 'all', Mv(q.mv.src, cases, q.mv.filtered))))
+                        return res
                 tr, fa, rs = self.branch(n.operand, st, frame)
                 return rs + [(s, Bv(True)) for s in fa] + [(s, Bv(False)) for s in tr]
             res = []
@@ -2341,6 +2354,10 @@ class SX:
                     return Bv(neg)
                 g = G('isnone', (name,))
                 return Bsym(g.negate() if neg else g)
+            if isinstance(r, Bv) and isinstance(l, (Bv, NoneV)):
+                # `flag is False` on a concrete flag: True / False / None are singletons
+                same = isinstance(l, Bv) and l.b is r.b
+                return Bv(same != neg)
             if isinstance(l, (N, Dyn, Q)) and isinstance(r, (N, Dyn, Q)):
                 # identity of two numbers / quantities: CPython answers like == only for cached small ints, so the decision
                 # is not a function of the values (`len(a) is not len(b)` is False up to 256 and True above)
